@@ -166,6 +166,9 @@ func newEventFromTrustedJSONV3(eventJSON []byte, redacted bool, roomVersion IRoo
 	res.roomVersion = roomVersion.Version()
 	res.redacted = redacted
 	res.eventJSON = eventJSON
+	// The event ID of this format is computed, never read from an "event_id" member (or a
+	// case variant of it) that the JSON happens to carry.
+	res.EventIDRaw = ""
 	if err := res.populateEventID(roomVersion); err != nil {
 		return nil, err
 	}
